@@ -118,10 +118,13 @@ class C20Monitor(Monitor):
         super().__init__(w)
         self.maximize = bool(w.plan["maximize"])
         self.probes = {int(p["consult"]): p["accessors"] for p in w.plan.get("probes", [])}
+        self.n_req_by_deme = {}  # the simulator's own record: evaluation requests per deme ordinal
         self.ran = {}  # id(deme) -> deme: it was stepped in some metaepoch (as seen by the simulator)
 
     def on_request(self, req):
         w = self.w
+        if req.deme >= 0:
+            self.n_req_by_deme[req.deme] = self.n_req_by_deme.get(req.deme, 0) + 1
         if w.phase == "metaepoch" and req.deme >= 0:
             d = w.deme_list[req.deme].obj
             self.ran[id(d)] = d
@@ -160,6 +163,12 @@ class C20Monitor(Monitor):
         while idx < len(lines) and not lines[idx].startswith("Number of evaluations:"):
             idx += 1
         expect(idx, "Number of evaluations: %d" % sum(d.n_evaluations for d in demes), "evaluations")
+        if idx < len(lines) and not w.plan.get("faults", {}).get("crash_at_consult"):
+            # "agree with the tree's state": the state as the simulator recorded it, not only as the counters tell it
+            recorded = sum(self.n_req_by_deme.get(w.deme_ord(d), 0) for d in demes)
+            w.probe("c20-evaluations-vs-simulator-record")
+            if lines[idx] != "Number of evaluations: %d" % recorded:
+                self.violate("summary-line/evaluations-vs-simulator-record", {"got": lines[idx], "requests_recorded": recorded})
         expect(idx + 1, "Number of demes: %d" % len(demes), "demes")
         pos = idx + 2
         for li, lv in enumerate(tree.levels):
